@@ -437,12 +437,74 @@ def run(prop, tier):
         else:
             rp = [r for e, s_, _, r in deviating if any(d in x for x in e)][0]
             res.violation("deviation %s observed but not listed as known for %s: %s -> %s" % (d, prop, example[d][0], example[d][1]), rp)
+    if prop == "C20":
+        aggregate_items(res, binary, rng, buckets, setup, root)
     res.cov.update(counts)
     res.cov["known_deviation_hits"] = per_dev
     res.cov["buckets"] = [b.describe() for b in buckets]
     res.assumptions += ["time zone UTC", "1Min source buckets of one year, times away from Jan 1",
                         "value literals non-negative; integer literals for integer columns"]
     return res.finish()
+
+
+def aggregate_items(res, binary, rng, buckets, setup, root):
+    """Select lists whose items are aggregate calls (outside the column-only lists of Sql.tla): every item is returned under its OWN
+    alias, or under the function's default name when it has none, with the aggregate of the stored column."""
+    import struct
+    f32 = lambda x: struct.unpack("<f", struct.pack("<f", float(x)))[0]
+    default = {"min": "Min", "max": "Max", "count": "Count"}
+    stmts = []
+    for b in buckets:
+        for k in range(6):
+            n = rng.choice([2, 2, 3])
+            items = []
+            used = set()
+            for j in range(n):
+                fn = rng.choice(["min", "max", "count"])
+                col = rng.choice(["A", "B"])
+                alias = rng.choice([None, "al%d" % j, "x%d" % j]) if (k + j) % 3 else ("lo%d" % j if j == 0 else None)
+                name = alias or default[fn]
+                if name in used:
+                    continue
+                used.add(name)
+                items.append((fn, col, alias))
+            if len(items) < 2:
+                continue
+            sel = ", ".join("%s(%s)%s" % (fn, REAL_NAME[col], (" AS " + al) if al else "") for fn, col, al in items)
+            stmts.append((b, items, "SELECT %s FROM `%s`;" % (sel, b.key)))
+    ops = [{"op": "start", "root": root + "_agg"}] + setup + [{"op": "sql", "stmt": st} for _, _, st in stmts]
+    obs = vlib.run_cases(binary, [{"id": "agg", "ops": ops}], timeout=300, tag="c20agg")
+    shutil.rmtree(root + "_agg", ignore_errors=True)
+    o = obs.get(json.dumps("agg"))
+    if o is None or (isinstance(o, dict) and "died" in o):
+        res.violation("the server died on a select list of aggregate calls: %s" % str(o)[-300:], {"check": "sql.aggregate_items", "seed": vlib.seed()})
+        return
+    n0 = 1 + len(setup)
+    ok = 0
+    for (b, items, st), ob in zip(stmts, o[n0:]):
+        replay = {"check": "sql.aggregate_items", "sql": st, "seed": vlib.seed()}
+        t = table_of(ob)
+        if isinstance(t, str):
+            res.violation("%s failed: %s" % (st, t[:300]), replay)
+            continue
+        names, recs = t
+        outn = [x for x in names if not (x.startswith("Epoch") and x[5:].isdigit() or x == "Epoch")]
+        want = [al or default[fn] for fn, col, al in items]
+        if outn != want or len(recs) != 1:
+            res.violation("%s returned the columns %s (%d rows); the select list names %s (one row)" % (st, outn, len(recs), want), replay)
+            continue
+        bad = None
+        for (fn, col, al), nm in zip(items, want):
+            vals = [r[REAL_NAME[col]] for r in b.stored]
+            exp = len(vals) if fn == "count" else f32(min(vals) if fn == "min" else max(vals))
+            if recs[0][nm] != exp:
+                bad = "%s = %r, the stored column gives %r" % (nm, recs[0][nm], exp)
+        if bad:
+            res.violation("%s: %s" % (st, bad), replay)
+        else:
+            ok += 1
+            res.cov["traces_validated_against_impl"] += 1
+    res.cov["aggregate_select_lists"] = ok
 
 
 STAR = [{"n": x, "s": x} for x in ("Epoch", "A", "B", "C")]
